@@ -19,6 +19,9 @@
 (* ObsNextCall); the verdict comes from the C08 invariants of Submitter over the observation    *)
 (* variables, evaluated after every line.  The mechanism variables of Submitter are not bound   *)
 (* (the code is judged by what the property says, not by how it is built).                      *)
+(* The Reset line also says which peers of the pool are configured for each kind (conf): the     *)
+(* nodes of a submission are the peers configured for ITS kind (N = conf[kind]); a Call line for  *)
+(* a peer outside N is explained by no action.                                                   *)
 (* Scatter scenarios = Reset + one Scatter line per (items, concurrency) with the extents the   *)
 (* work function was called with; judged by ScatterPartition.                                   *)
 EXTENDS Submitter, TraceLib
@@ -30,11 +33,12 @@ NoScat == [items |-> 0]
 
 MechIdle ==
     /\ mpc = "pre" /\ npc = <<>> /\ sem = 0 /\ due = <<>> /\ completed = FALSE
-    /\ tpc = "armed" /\ clock = 0 /\ lost = 0 /\ memo = <<>> /\ held = 0
+    /\ tpc = "armed" /\ clock = 0 /\ lost = 0 /\ memo = <<>> /\ held = 0 /\ fails = 0
 
 TraceInit ==
     /\ l = 1
     /\ kind = "att" /\ conc = 1 /\ items = 1 /\ nodes = <<>>
+    /\ conf = [k \in Kinds |-> {}]
     /\ ObsInit
     /\ known = <<>> /\ callNo = 1
     /\ MechIdle
@@ -43,19 +47,22 @@ TraceInit ==
 
 IsEvent(e) == l <= TraceLen /\ Trace[l].ev = e /\ l' = l + 1
 
+ToSet(q) == {q[i] : i \in 1..Len(q)}
 TraceReset ==
     /\ IsEvent("Reset")
     /\ kind' = Trace[l].kind
     /\ conc' = Trace[l].conc
     /\ items' = Trace[l].items
     /\ nodes' = Trace[l].nodes
-    /\ offered' = [n \in 1..Len(Trace[l].nodes) |-> <<>>]
-    /\ callAt' = [n \in 1..Len(Trace[l].nodes) |-> "no"]
-    /\ reply' = [n \in 1..Len(Trace[l].nodes) |-> "none"]
-    /\ done' = [n \in 1..Len(Trace[l].nodes) |-> "no"]
-    /\ pre' = [n \in 1..Len(Trace[l].nodes) |-> FALSE]
+    /\ conf' = [k \in Kinds |-> ToSet(Trace[l].conf[k]) \cap (1..Len(Trace[l].nodes))]
+    /\ LET mine == ToSet(Trace[l].conf[Trace[l].kind]) \cap (1..Len(Trace[l].nodes))
+       IN /\ offered' = [n \in mine |-> <<>>]
+          /\ callAt' = [n \in mine |-> "no"]
+          /\ reply' = [n \in mine |-> "none"]
+          /\ done' = [n \in mine |-> "no"]
+          /\ pre' = [n \in mine |-> FALSE]
+          /\ known' = Learn([n \in 1..Len(Trace[l].nodes) |-> {}], Trace[l].nodes, mine)
     /\ ret' = "none" /\ retAt' = "none" /\ final' = FALSE
-    /\ known' = Learn([n \in 1..Len(Trace[l].nodes) |-> {}], Trace[l].nodes)
     /\ callNo' = 1
     /\ scat' = NoScat
     /\ UNCHANGED mvars
